@@ -16,7 +16,7 @@ TRUSTED_BASE = [
 ASSUMPTIONS = [
     "offsets, timestamps in [0, 2^62); key/value lengths < 2^30; a physical log is v0/v1 batches followed by v2 batches, batches cover disjoint increasing offset ranges and contain their records",
     "a fetch at offset o is answered from the batch whose last offset is >= o; the response is a byte prefix that keeps the first batch whole (Kafka's rule); layouts may be re-packed between fetches but hold the same records",
-    "single user goroutine calling FetchMessage / SetOffset (the property's 'call started after SetOffset returned')",
+    "single user goroutine calling FetchMessage / SetOffset (the property's 'call started after SetOffset returned'): in Model/ReaderModel.v SetOffset is not enabled while a FetchMessage call is in progress (r_call); the call's snapshot of Reader.version, taken after the lazy start, is part of the state",
 ]
 
 # Three defects found by this check were fixed in /repo (retained record-less v2 batch reset
@@ -135,10 +135,15 @@ def classify_e2e(c, model):
         out.append(dict(layer="property",
                         what="end to end: FetchMessage returned a sequence that is not a prefix of the stored records from the start position", input=c))
     if delivered != e2e_expected(c) or problems != "ok":
-        if prop == "prop-ok":
-            out.append(dict(layer="correspondence", what="end to end: model replay of the journal differs from the real Reader (" + problems[:120] + ")", input=None))
-        else:
+        kinds = sorted(set(p.split(" ")[0] for p in problems.split("+"))) if problems != "ok" else ["RETURNS"]
+        if prop != "prop-ok":
             out.append(dict(layer="property", what="end to end: real Reader differs from the model and breaks the delivery predicate", input=c))
+        elif "OFFSET" in kinds or "LAG" in kinds:
+            # C02_offset_is_position: Reader.offset is the position of the next message
+            out.append(dict(layer="property", what="end to end: Reader.Offset() / Reader.Lag() after a call is not the model's: Reader.offset is not one past the "
+                                                   "last message returned (or the position set), the value SetOffset compares with", input=c))
+        else:
+            out.append(dict(layer="correspondence", what="end to end: model replay of the journal differs from the real Reader (" + ",".join(kinds) + ")", input=None))
     return out
 
 
@@ -207,7 +212,10 @@ def correspondence(ctx):
                      "the encoded response cut at every byte (<= 260 bytes) or 16 sampled positions, physically cut connections, passed deadlines, hwm = offset; "
                      "every byte-level result includes Batch.Close's result and whether the library closed the connection; " + SWEEP_RULE + "; "
                      "fetch v2/v5/v10; end to end: real kafka.Reader on harness/fetchfake with scripted cuts, NotLeaderForPartition, OffsetOutOfRange, "
-                     "RequestTimedOut, disconnects, leader moves, re-packed layouts, SetOffset; every case is non-trivial (distinct by hash of op+args)",
+                     "RequestTimedOut, disconnects, leader moves, re-packed layouts, SetOffset; the SetOffset family (140 scenarios: start by default / SetOffset at a record / in a hole / FirstOffset, "
+                     "exactly k = 0..3 reads by polling calls or with a first call that blocks until its message arrives (the call that starts the fetcher returns the first message), "
+                     "then SetOffset to the same position, one past it, the last returned offset, one past that, or a hole, then reads); Reader.Offset() and Reader.Lag() "
+                     "journalled after every call and compared with the model; every case is non-trivial (distinct by hash of op+args)",
                 samples=[(c["op"] + " " + c["args"])[:300] + " | " + c["go"][:100] for c in cases[:2] + cases[len(cases)//2:len(cases)//2+2] + cases[-2:]],
                 failures=failures)
 
